@@ -927,7 +927,11 @@ static void
 orc_parse_advance (OrcParser *parser)
 {
   parser->p += parser->line_length;
-  if (parser->p[0] == '\n' || parser->p[0] == '\r') {
+  /* the line ends with LF or CR LF (or the text ends here) */
+  if (parser->p[0] == '\r') {
+    parser->p++;
+  }
+  if (parser->p[0] == '\n') {
     parser->p++;
   }
 }
